@@ -207,6 +207,7 @@ func NewInlineSubscriptions() *InlineSubscriptions {
 
 // Add adds a new internal subscription for a client id.
 func (s *InlineSubscriptions) Add(val InlineSubscription) {
+	verifPoint("inline.add") // schedule point before the subscription is stored (verif build tag)
 	s.Lock()
 	defer s.Unlock()
 	s.internal[val.Identifier] = val
